@@ -12,13 +12,13 @@ def _garbage_scripts(rng, n):
     for _ in range(n):
         s = [("net", "accept"), ("lat", rng.choice([0, 1])), ("open",), ("adv", 8)]
         for _ in range(rng.randint(1, 4)):
-            s.append(("peer", rng.choice(["garbage", "badcrc", "trunc", "status", "status"])))
+            s.append(("peer", rng.choice(["garbage", "badcrc", "trunc", "badtext", "badenum", "short", "status", "status"])))
             s.append(("adv", rng.choice([1, 8, 17, 24])))
         s.append(("heal",))
         out.append(("faults", s))
     # the client is closed while it is still busy resetting the connection after bad input, opened again later, and meets bad input
     # again: it must recover exactly as the first time
-    for what in ("garbage", "badcrc", "trunc"):
+    for what in ("garbage", "badcrc", "trunc", "badtext", "badenum", "short"):
         for k in range(0, 5):
             out.append(("faults", [("net", "accept"), ("open",), ("adv", 8), ("peer", what), ("turn", k), ("close",), ("adv", 24), ("open",), ("adv", 8),
                                    ("peer", what), ("adv", 8), ("heal",)]))
@@ -35,7 +35,7 @@ def run(ctx, deep=False):
         "payloads, mutated frames (bit flips with and without recomputed CRC, truncations, wrong length fields, wrong prefixes, AT5 "
         "outer-length mismatches, trailing bytes, two frames back to back), random bytes - the real _read_one_message outcome "
         "(delivered header+message / CRC reject / exception class / incomplete) against the Lean model's `parse`, and the re-sent bytes; "
-        "(b) the real socket on the virtual clock with garbage / bad-CRC / truncated frames from the peer: no exception may escape a "
+        "(b) the real socket on the virtual clock with garbage / bad-CRC / truncated frames and intact frames with refused content (a name that is not UTF-8, an undefined enumeration value, a sub-message shorter than its fixed part) from the peer: no exception may escape a "
         "task of the client or reach the loop's exception handler, the connection is re-established and a later intact frame is "
         "delivered; every run replayed against the socket model; (c) AT4 group/AC status and AT5 zone/AC status payloads (all "
         "strides >= the known layout) whose independent vendor reading has only defined values must be decoded (same decoder "
